@@ -105,21 +105,19 @@ def plan_inherit(case, pid):
 
     acts = []
 
-    def vptr_at_zero(tname):
-        """the object's vftable pointer is its first word: the type owns it, or its first base (its first field) carries it"""
-        cur = oracle[tname]
-        while cur["baseHasVft"]:
-            d = defs[cur["name"]]
-            if not d["fields"] or not d["fields"][0]["base"] or d["fields"][0]["name"] != cur["firstBase"]:
-                return False
-            cur = oracle[field_type(cur["name"], cur["firstBase"])]
-        return cur["ownBlock"]
-
     for t in case["oracle"]["types"]:
         ty = t["path"]
         if pid == "C04":
             # every virtual function of the type's table, inherited ones included, called on an object of the type through a fake table
-            if not t["table"] or not vptr_at_zero(t["name"]):
+            if not t["table"]:
+                continue
+            # where the object's vftable pointer lives: follow the first bases down to the type that owns it (its first word);
+            # a base that is not the first field puts it away from the object's own first word
+            vpath, cur = [], t
+            while cur["baseHasVft"]:
+                vpath.append(cur["firstBase"])
+                cur = oracle[field_type(cur["name"], cur["firstBase"])]
+            if not cur["ownBlock"]:
                 continue
             for slot, s in enumerate(t["table"]):
                 if s["pad"] or s["name"].startswith("_"):
@@ -131,7 +129,7 @@ def plan_inherit(case, pid):
                 if via["kind"] != "slot" or via["field_path"] or not any(a["k"] in ("cself", "mself") for a in f["args"]):
                     continue
                 acts.append({"k": "vcall", "ty": ty, "method": s["name"], "args": decl_args(f, mp), "ret": decl_ty(f["ret"], mp),
-                             "slot": slot, "table_len": len(t["table"])})
+                             "slot": slot, "table_len": len(t["table"]), "vpath": vpath})
             continue
         if pid == "C06":
             if t["baseHasVft"] or t["ownBlock"]:
